@@ -44,6 +44,6 @@ require (
 	gopkg.in/yaml.v3 v3.0.1 // indirect
 )
 
-replace github.com/lightninglabs/neutrino => /repo
+replace github.com/lightninglabs/neutrino => /tmp/wp-filth2/repo
 
-replace github.com/lightninglabs/neutrino/cache => /repo/cache
+replace github.com/lightninglabs/neutrino/cache => /tmp/wp-filth2/repo/cache
